@@ -726,9 +726,8 @@ func sfExpand(c *sfCtx, e ast.Expr, val bool, depth int, out *[]sfFact) {
 		}
 	case *ast.CallExpr:
 		if h := c.enter(x, 6); h != nil {
-			rs := sfReturns(h.fn)
-			if len(rs) == 1 && len(rs[0].Results) == 1 && len(h.fn.Body.List) == 1 {
-				sfExpand(h, rs[0].Results[0], val, depth-1, out)
+			if e2, neg, ok := sfBoolHelperBody(h.fn); ok {
+				sfExpand(h, e2, val != neg, depth-1, out)
 			}
 		}
 	}
@@ -1305,11 +1304,14 @@ func sfBoolResolve(c *sfCtx, e ast.Expr) (*sfCtx, ast.Expr) {
 			if h == nil {
 				return c, e
 			}
-			rs := sfReturns(h.fn)
-			if len(rs) != 1 || len(rs[0].Results) != 1 || len(h.fn.Body.List) != 1 {
+			e2, neg, ok := sfBoolHelperBody(h.fn)
+			if !ok {
 				return c, e
 			}
-			c, e = h, rs[0].Results[0]
+			if neg {
+				e2 = &ast.UnaryExpr{Op: token.NOT, X: e2, OpPos: e2.Pos()}
+			}
+			c, e = h, e2
 			continue
 		}
 		return c, e
@@ -1332,4 +1334,139 @@ func sfAtomicFacts(facts []sfFact) []sfFact {
 		out = append(out, ft)
 	}
 	return out
+}
+
+// sfBoolHelperBody recognises a boolean helper body that is decided by one
+// expression: `return <expr>` (neg=false) or `if <expr> { return K }; return !K`
+// (result == K exactly when expr holds; neg = !K).
+func sfBoolHelperBody(h *engine.Fn) (expr ast.Expr, neg, ok bool) {
+	list := h.Body.List
+	if len(list) == 1 {
+		if r, isR := list[0].(*ast.ReturnStmt); isR && len(r.Results) == 1 {
+			return r.Results[0], false, true
+		}
+		return nil, false, false
+	}
+	if len(list) == 2 {
+		is, isIf := list[0].(*ast.IfStmt)
+		r2, isR := list[1].(*ast.ReturnStmt)
+		if !isIf || !isR || is.Init != nil || is.Else != nil || len(is.Body.List) != 1 || len(r2.Results) != 1 {
+			return nil, false, false
+		}
+		r1, isR1 := is.Body.List[0].(*ast.ReturnStmt)
+		if !isR1 || len(r1.Results) != 1 {
+			return nil, false, false
+		}
+		k1, c1 := sfConstBool(h.Info(), r1.Results[0])
+		k2, c2 := sfConstBool(h.Info(), r2.Results[0])
+		if c1 && c2 && k1 != k2 {
+			return is.Cond, !k1, true
+		}
+	}
+	return nil, false, false
+}
+
+// sfErrPathChecked: path-based error handling. The error result of `call` is
+// bound to a variable; every path from the call to a return, to the next loop
+// iteration or to a re-assignment of that variable first passes a test of the
+// variable against nil whose failing branch returns the error (or, with
+// mustPanic, never returns normally).
+func sfErrPathChecked(f *engine.Fn, call *ast.CallExpr, mustPanic bool) bool {
+	info := f.Info()
+	g := f.Graph()
+	var errObj types.Object
+	var assign ast.Node
+	engine.InspectBody(f, func(n ast.Node) {
+		as, ok := n.(*ast.AssignStmt)
+		if !ok || len(as.Rhs) != 1 || ast.Unparen(as.Rhs[0]) != ast.Expr(call) {
+			return
+		}
+		if id, ok := as.Lhs[len(as.Lhs)-1].(*ast.Ident); ok && id.Name != "_" {
+			if o := info.ObjectOf(id); o != nil && types.Identical(o.Type(), types.Universe.Lookup("error").Type()) {
+				errObj, assign = o, as
+			}
+		}
+	})
+	cs := f.SiteOf(call)
+	if errObj == nil || cs == nil {
+		return false
+	}
+	// condition blocks testing errObj, with their failing successor
+	tests := map[*sfCfgBlock]bool{}
+	for _, b := range g.CFG.Blocks {
+		cond := g.CondOf(b)
+		if cond == nil {
+			continue
+		}
+		a, bb, op, isC := sfCmp(cond)
+		if !isC || !isNil(bb) || engine.ObjOf(info, a) != errObj || (op != token.NEQ && op != token.EQL) {
+			continue
+		}
+		fail := b.Succs[0]
+		if op == token.EQL {
+			fail = b.Succs[1]
+		}
+		// the failing branch must hand the error on (or never return)
+		okFail := false
+		if r := fail.Return(); r != nil {
+			for _, e := range r.Results {
+				if engine.Mentions(info, e, errObj) {
+					okFail = !mustPanic
+				}
+			}
+		} else if len(fail.Succs) == 0 && len(fail.Nodes) > 0 {
+			if es, isES := fail.Nodes[len(fail.Nodes)-1].(*ast.ExprStmt); isES {
+				if cl, isCl := es.X.(*ast.CallExpr); isCl && !f.Prog.MayReturn(info, cl) {
+					okFail = true
+				}
+			}
+		}
+		if okFail {
+			tests[b] = true
+		}
+	}
+	if len(tests) == 0 {
+		return false
+	}
+	if tests[cs.Block] {
+		return true // `if err := call(); err != nil { return err }`
+	}
+	// blocks that must not be reached before a test: returns, loop heads, other definitions of errObj
+	bad := func(b *sfCfgBlock) bool {
+		if !b.Live {
+			return false
+		}
+		if b.Return() != nil || (len(b.Succs) == 0) {
+			return true
+		}
+		switch b.Kind {
+		case cfg.KindForLoop, cfg.KindForPost, cfg.KindRangeLoop:
+			return true
+		}
+		for _, n := range b.Nodes {
+			if as, ok := n.(*ast.AssignStmt); ok && as != assign {
+				for _, l := range as.Lhs {
+					if engine.ObjOf(info, l) == errObj {
+						return true
+					}
+				}
+			}
+		}
+		return false
+	}
+	seen := map[*sfCfgBlock]bool{}
+	stack := append([]*sfCfgBlock{}, cs.Block.Succs...)
+	for len(stack) > 0 {
+		b := stack[len(stack)-1]
+		stack = stack[:len(stack)-1]
+		if seen[b] || tests[b] {
+			continue
+		}
+		seen[b] = true
+		if bad(b) {
+			return false
+		}
+		stack = append(stack, b.Succs...)
+	}
+	return true
 }
